@@ -86,6 +86,8 @@ class Model(object):
         # who charges commissions: the whole tree (set_commissions on the assembled root) or only the sub-strategies that had their own
         # commission function installed before they were composed into the tree (nobody calls set_commissions on the root then)
         node.charges = (parent is not None) or self.spec.get("fee_scope", "tree") == "tree"
+        if n.get("spawn") and parent is not None:
+            node.charges = parent.charges  # created mid-history with parent=: trades on its parent's terms
         node.exists = not n.get("spawn", False)  # a sub-strategy created dynamically mid-history (parent=, setup_from_parent)
         node.spec = n
         for c in n.get("children") or []:
@@ -344,8 +346,7 @@ class TreeRun(object):
             kids = [c if isinstance(c, str) else interp.mk_node(bt, c, self.spec, {}) for c in mc.spec.get("children") or []]
             new = bt.core.StrategyBase(mc.name, children=kids or None, parent=s)
             new.setup_from_parent()
-            if self.fee.spec["kind"] != "none":
-                new.set_commissions(self.fee)
+            # nothing else: like the integer-positions flag, the commission function of the tree it joins is the new strategy's too
             mc.exists = True
             root.update(self.now())
             return True
